@@ -217,5 +217,92 @@ def register(gen, T):
         out.append("/-- arms of `float_type`: accepted first byte -> type -/\n"
                    "def floatTypeTable : List (List Nat × FloatType) := [\n" +
                    ",\n".join("  (" + T.lean_list(str(b) for b in bs) + f", .{k})" for bs, k in rows) + "]\n")
+        # ---- calculate_float64_from_parts: the statement shape the model relies on
+        m = re.search(r'fn\s+calculate_float64_from_parts\s*\(([^)]*)\)\s*->\s*([A-Za-z0-9_]+)', lexer)
+        if not m:
+            raise ExtractError("calculate_float64_from_parts: signature not found")
+        sig = normws(m.group(1)).rstrip(',') + " -> " + m.group(2)
+        body = fn_body(lexer, "calculate_float64_from_parts")
+
+        def statements(b):
+            """top-level statements of a block: `;`-terminated ones, brace blocks (for/if/while/loop/match, with
+            else chains), and the tail expression"""
+            res, i, n, start = [], 0, len(b), 0
+            while i < n:
+                while start < n and b[start] in ' \t\r\n':
+                    start += 1
+                i = max(i, start)
+                if i >= n:
+                    break
+                c = b[i]
+                if c in '([':
+                    i = matching(b, i) + 1
+                    continue
+                if c == '"' or c == "'":
+                    from rustsrc import skip_literal
+                    k = skip_literal(b, i)
+                    if k is not None:
+                        i = k
+                        continue
+                if c == '{':
+                    j = matching(b, i)
+                    head = b[start:i].strip()
+                    i = j + 1
+                    if re.match(r'(for|if|while|loop|match|unsafe)\b', head) or head == '':
+                        # an `else` continues the same statement
+                        rest = b[i:].lstrip()
+                        if rest.startswith('else'):
+                            continue
+                        res.append(normws(b[start:i]))
+                        start = i
+                    continue
+                if c == ';':
+                    res.append(normws(b[start:i]))
+                    i += 1
+                    start = i
+                    continue
+                i += 1
+            tail = normws(b[start:])
+            if tail:
+                res.append("TAIL " + tail)
+            return res
+
+        push_digits = lambda v: (r"for digit in &%s \{ text\.push\(char::from\(b'0' \+ \*digit as u8\)\); \}" % v)
+        shapes = [
+            ("newText", r"let mut text = String::with_capacity\(.*\)"),
+            ("pushLeftDigits", push_digits("left")),
+            ("zeroIfLeftEmpty", r"if left\.is_empty\(\) \{ text\.push\('0'\); \}"),
+            ("pushDot", r"text\.push\('\.'\)"),
+            ("pushRightDigits", push_digits("right")),
+            ("zeroIfRightEmpty", r"if right\.is_empty\(\) \{ text\.push\('0'\); \}"),
+            ("pushE", r"text\.push\('e'\)"),
+            ("pushExponent", r"text\.push_str\(&exponent\.to_string\(\)\)"),
+            ("returnParseF64", r'TAIL text \.?\s*parse::<f64>\(\) ?\.expect\(".*"\)'),
+        ]
+        steps = []
+        for st in statements(body):
+            st2 = st.replace("text.parse", "text .parse") if st.startswith("TAIL") else st
+            tag = None
+            for name, pat in shapes:
+                if re.fullmatch(pat, st2):
+                    tag = name
+                    break
+            steps.append(tag if tag else "other:" + st[:60].replace('"', "'").replace('\\', '/'))
+        returns = len(re.findall(r'\breturn\b', body))
+        muldiv = len(re.findall(r'\S (\*|/) \S', normws(body)))
+        casts = len(re.findall(r'\bas f(64|32)\b|\bf(64|32)::|\.pow[if]\(|mul_add', body))
+        calls = len(re.findall(r'\bcalculate_float64_from_parts\s*\(', lexer)) - 1
+        callarg = re.search(r'let value64 = calculate_float64_from_parts\(left, right, exp\);', lexer) is not None
+        out.append("\n/-- `calculate_float64_from_parts`: signature, the top-level statements of its body in order (anything the\n"
+                   "translator does not recognise is `other:<text>`), the number of `return`s, of binary `*` `/`, of float casts /\n"
+                   "float functions in the body, the number of call sites and whether the one in `literal_float` passes\n"
+                   "`(left, right, exp)` -/\n")
+        out.append("def floatPartsSignature : String := " + T.lean_str(sig) + "\n")
+        out.append("def floatPartsSteps : List String := " + T.lean_list(T.lean_str(x) for x in steps) + "\n")
+        out.append(f"def floatPartsReturns : Nat := {returns}\n")
+        out.append(f"def floatPartsMulDiv : Nat := {muldiv}\n")
+        out.append(f"def floatPartsFloatOps : Nat := {casts}\n")
+        out.append(f"def floatPartsCallSites : Nat := {calls}\n")
+        out.append(f"def floatPartsCalledWithParts : Bool := {'true' if callarg else 'false'}\n")
         out.append(T.footer("LexTables"))
         return "".join(out)
